@@ -299,11 +299,19 @@ def boundary_values(rng, t, exhaustive8=False, lexical=True):
     elif kind == 'Unicode':
         if 'values' in f:
             out += [(x, 'member') for x in f['values']] + [('zz-not-a-member', 'non_member')]
+            m0 = f['values'][0]
+            out += [(m0 + '\n', 'non_member_trailing_lf'), (' ' + m0, 'non_member_leading_space'),
+                    (m0.upper() if m0.upper() != m0 and m0.upper() not in f['values'] else m0 + m0 + '~', 'non_member_case')]
         elif 'pattern' in f:
             for _ in range(3):
                 out.append((gen._from_pattern(rng, f['pattern']), 'pattern_match'))
             out += [('!!', 'pattern_mismatch'), (gen._from_pattern(rng, f['pattern']) + '!', 'pattern_mismatch_suffix'),
                     ('!' + gen._from_pattern(rng, f['pattern']), 'pattern_mismatch_prefix')]
+            # whitespace around a conforming value: the facet applies to the whole value ($ vs \Z, strip() slips)
+            for ws, tag in (('\n', 'lf'), (' ', 'space'), ('\t', 'tab'), ('\n\n', 'lflf')):
+                out.append((gen._from_pattern(rng, f['pattern']) + ws, 'pattern_mismatch_trailing_' + tag))
+            out += [('\n' + gen._from_pattern(rng, f['pattern']), 'pattern_mismatch_leading_lf'),
+                    (gen._from_pattern(rng, f['pattern']) + '\n' + gen._from_pattern(rng, f['pattern']), 'pattern_mismatch_embedded_lf')]
         else:
             mn, mx = f.get('min_len', 0), f.get('max_len')
             lens = set([mn, mn + 1])
@@ -312,6 +320,9 @@ def boundary_values(rng, t, exhaustive8=False, lexical=True):
             if mx is not None:
                 lens.update((mx - 1, mx, mx + 1))
             out += [('a' * n, 'len_%d' % n) for n in sorted(lens) if n >= 0]
+            # length is counted in code points, and whitespace counts
+            out += [('\u0394' * n, 'len_%d_nonascii' % n) for n in sorted(lens) if n > 0]
+            out += [('a' * (n - 1) + '\n', 'len_%d_trailing_lf' % n) for n in sorted(lens) if n > 0]
     elif kind == 'Boolean':
         out += [(True, 'bool'), (False, 'bool')]
         if lexical:
